@@ -691,8 +691,58 @@ func runCodecProps(r *rt.Runner, prop string) {
 				sm.Mutable(sfld("r_" + sc.prefix)).List().Append(sc.v)
 				all = append(all, wrapped{"array-element:" + sc.prefix, sm})
 				sm = newDyn(sinkMD)
-				sm.Mutable(sfld("m_" + sc.prefix)).Map().Set(protoreflect.ValueOfString("k").MapKey(), sc.v)
+				sm.Mutable(sfld("m_"+sc.prefix)).Map().Set(protoreflect.ValueOfString("k").MapKey(), sc.v)
 				all = append(all, wrapped{"map-value:" + sc.prefix, sm})
+			}
+			// Any values whose payload members are empty rather than missing (a Go caller writing []byte{}; equal as a
+			// proto message to the same Any without them), or without a payload at all (a j5_json payload that is not JSON is outside the
+			// domain of the property and is not judged)
+			for _, prefix := range []string{"j5any", "pbany"} {
+				af := sfld(prefix)
+				names := []string{"type_name", "proto", "j5_json"}
+				typeVal := "verif.sink.v1.Leaf"
+				if prefix == "pbany" {
+					names = []string{"type_url", "value", ""}
+					typeVal = "type.googleapis.com/verif.sink.v1.Leaf"
+				}
+				for _, shape := range []struct {
+					name     string
+					typ      string
+					pb, json []byte
+				}{
+					{"empty-json", typeVal, nil, []byte{}},
+					{"empty-proto", typeVal, []byte{}, nil},
+					{"empty-both", typeVal, []byte{}, []byte{}},
+					{"no-payload", typeVal, nil, nil},
+					{"no-type", "", nil, []byte("{}")},
+					{"no-type-empty", "", []byte{}, []byte{}},
+					{"unknown-type", strings.Replace(typeVal, "Leaf", "NoSuchType", 1), []byte{}, nil},
+					{"unknown-type-json", strings.Replace(typeVal, "Leaf", "NoSuchType", 1), nil, []byte("{}")},
+					{"garbage-proto", typeVal, []byte{0xff, 0xff, 0xff}, nil},
+				} {
+					if prefix == "pbany" && shape.json != nil {
+						continue
+					}
+					am := newDyn(af.Message())
+					if shape.typ != "" {
+						setByName(am, names[0], protoreflect.ValueOfString(shape.typ))
+					}
+					if shape.pb != nil {
+						setByName(am, names[1], protoreflect.ValueOfBytes(shape.pb))
+					}
+					if shape.json != nil {
+						setByName(am, names[2], protoreflect.ValueOfBytes(shape.json))
+					}
+					sm := newDyn(sinkMD)
+					sm.Set(af, protoreflect.ValueOfMessage(am))
+					all = append(all, wrapped{"any=" + prefix + "/" + shape.name, sm})
+					// and below a container
+					outer := newDyn(sinkMD)
+					sm2 := newDyn(sinkMD)
+					sm2.Set(af, protoreflect.ValueOfMessage(proto.Clone(am).ProtoReflect()))
+					outer.Mutable(sfld("children")).List().Append(protoreflect.ValueOfMessage(sm2))
+					all = append(all, wrapped{"any=" + prefix + "/" + shape.name + "@children", outer})
+				}
 			}
 			for _, k := range all {
 				m := k.m
